@@ -402,6 +402,7 @@ struct C19 : public Driver {
         if (r.num("liveAfterDelete") > 0) outcome["outstanding-after-fault(allowed)"]++;
     }
 
+    bool isolateRuns() const override { return true; }
     void execute(const Json& plan, Result& res, Trace& tr) override {
         std::map<std::string, int> outcome;
         ChildRes dryc = runChild(plan, -1, 0);
